@@ -15,7 +15,7 @@ NOT_PROVED = ["sign of products v[i-1]*v[i] that underflow in binary64 (not gene
               "C12.f: 'switched peaks with tol>0 are a subsequence of the tol=0 result' is false of code and model (known finding F12-2); "
               "proved instead: sublist of the peak list"]
 EXHAUSTIVE = True
-PROP_MODULES = ['C12', 'C12Discharged']
+PROP_MODULES = ['C12', 'C12Discharged', 'C12Gen']
 
 
 def spec_zc(v, keep):
@@ -228,3 +228,240 @@ def known_witness(fid):
         s1 = list(pc.get_switched_peak_array_indices(v, tol=0.5))
         return not is_subseq(s1, s0)
     return True
+
+
+# ---- extras2 (harness extension hx_b): object-level wrappers, containers, exact scaling, large instances ------------------------------------
+
+def np_spec_zc(a, keep):
+    """C12.a with NumPy comparisons of signs only (no products), O(n)"""
+    a = np.asarray(a, dtype=float)
+    s = np.sign(a)
+    hit = np.zeros(len(a), dtype=bool)
+    hit[0] = True
+    z = a[1:] == 0
+    hit[1:] |= z if keep else (z & (a[:-1] != 0))
+    hit[1:] |= (s[1:] * s[:-1]) < 0
+    return np.nonzero(hit)[0]
+
+
+def np_spec_switched(a, S, P):
+    """C12.c-e on a reported index array S (P = reported local peaks), vectorised; returns None or the violated clause"""
+    a = np.asarray(a, dtype=float)
+    S = np.asarray(S, dtype=np.int64)
+    n = len(a)
+    if len(S) == 0 or np.any(np.diff(S) <= 0) or S[0] < 0 or S[-1] >= n:
+        return 'strictly ascending (inside the series)'
+    s = np.sign(a)
+    starts = np.concatenate(([0], np.nonzero(s[1:] != s[:-1])[0] + 1))
+    ends = np.concatenate((starts[1:], [n]))
+    ex = s[starts] != 0
+    cnt = np.searchsorted(S, ends, 'left') - np.searchsorted(S, starts, 'left')
+    if np.any(cnt[ex] != 1):
+        return 'each excursion contains exactly one reported index'
+    mx = np.maximum.reduceat(np.abs(a), starts)
+    si = S[np.searchsorted(S, starts[ex], 'left')]
+    if np.any(np.abs(a[si]) != mx[ex]):
+        return 'reported index of an excursion is at its largest |value|'
+    other = S[a[S] == 0]
+    if not np.all(np.isin(other, np.asarray(P))):
+        return 'any other reported index is a zero-valued turning point'
+    sv = s[S]
+    if np.any(sv[1:] * sv[:-1] > 0):
+        return 'consecutive reported indices do not share a strict sign'
+    if np.max(np.abs(a)) != np.max(np.abs(a[S])):
+        return 'global absolute maximum is included'
+    return None
+
+
+def _same_idx(x, y):
+    x, y = np.asarray(x), np.asarray(y)
+    return x.shape == y.shape and bool(np.all(x == y))
+
+
+def _light_history(ctx, cls, values, dt):
+    """like Ctx.aged but without filling the (expensive) spectral caches"""
+    rng = ctx.rng
+    kind = rng.choice(['fresh', 'reset-other-length', 'reset-same-length', 'reset-shorter'])
+    ctx.hist('object-history(light)/' + kind)
+    ctx.last_object_history = kind
+    values = np.array(values, dtype=float)
+    n = len(values)
+    if kind == 'fresh':
+        return cls(values, dt)
+    m = n + rng.randint(1, 9) if kind == 'reset-other-length' else n if kind == 'reset-same-length' else max(2, n - rng.randint(1, max(1, n // 2)))
+    s = cls(np.array([rng.uniform(-1, 1) for _ in range(min(m, 50))] * (m // min(m, 50) + 1))[:m], dt)
+    s.npts
+    s.time
+    s.reset_values(values)
+    return s
+
+
+def _excursion_record(rng, n, zero_touch=True):
+    v = []
+    sgn = rng.choice([-1, 1])
+    while len(v) < n:
+        v += [sgn * rng.choice([0.25, 0.5, 1, 1.5, 2, 3, 5]) for _ in range(rng.randint(2, 6))]
+        r = rng.random()
+        if zero_touch and r < 0.3:
+            v += [0.0]
+        elif zero_touch and r < 0.4:
+            v += [0.0] * rng.randint(2, 3)
+        if rng.random() < 0.6:
+            sgn = -sgn
+    return np.array(v[:n], dtype=float)
+
+
+def _x2_wrappers(ctx, cur):
+    import eqsig
+    from eqsig.fns import peaks_and_crossings as pc
+    rng = ctx.rng
+    quick = ctx.tier == 'quick'
+
+    # ---- (3) object-level wrappers (objects with a history), raw-array form of get_switched_peak_indices; (4) containers / dtypes -------
+    for it in range(60 if quick else 600):
+        n = gen.log_int(rng, 2, 80)
+        kind = rng.choice(['excursions', 'int', 'plateau', 'dyadic', 'noise'])
+        v = (_excursion_record(rng, n) if kind == 'excursions' else gen.int_record(rng, n) if kind == 'int' else gen.plateau_record(rng, n)
+             if kind == 'plateau' else gen.dyadic_record(rng, n) if kind == 'dyadic' else gen.noise_record(rng, n))
+        ctx.hist('extras2/wrappers/' + kind)
+        ctx.count_case(('x2w', v.tobytes()), gen.nontrivial_record(v))
+        dt = gen.any_dt(rng)
+        inputs = {'values': v.tolist(), 'dt': dt}
+        cur.clear()
+        cur.update(inputs)
+        cls = eqsig.AccSignal if it % 2 else eqsig.Signal
+        asig = ctx.aged(cls, v, dt) if it % 5 == 0 else _light_history(ctx, cls, v, dt)
+        z_ref = pc.get_zero_crossings_array_indices(v)
+        rz = call_impl(pc.get_zero_crossings_indices, asig)
+        ctx.oracle('C12.a get_zero_crossings_indices(asig) == get_zero_crossings_array_indices(asig.values) == {0} + first zeros + first samples after a sign change',
+                   rz[0] == 'ok' and _same_idx(rz[1], z_ref) and _same_idx(rz[1], np_spec_zc(v, False)), inputs, detail={'wrapper': rz[1], 'array-level': z_ref})
+        if len(set(v.tolist())) > 1:
+            s_ref = pc.get_switched_peak_array_indices(v)
+            P = pc.get_peak_array_indices(v)
+            bad = np_spec_switched(v, s_ref, P)
+            rs = call_impl(pc.get_switched_peak_indices, asig)
+            ctx.oracle('C12.c-e get_switched_peak_indices(asig) == get_switched_peak_array_indices(asig.values)' + (' [array-level: ' + bad + ']' if bad else ''),
+                       rs[0] == 'ok' and _same_idx(rs[1], s_ref) and bad is None, inputs, detail={'wrapper': rs[1], 'array-level': s_ref})
+            for lab, raw in (('ndarray', v.copy()), ('list', v.tolist())):
+                rr = call_impl(pc.get_switched_peak_indices, raw)
+                ctx.oracle('C12.c-e get_switched_peak_indices(<plain %s>) == get_switched_peak_array_indices(values)' % lab,
+                           rr[0] == 'ok' and _same_idx(rr[1], s_ref), inputs, detail={'wrapper': rr[1], 'array-level': s_ref})
+        ctx.oracle('C12 the wrappers leave the record of the object unchanged', _same_idx(asig.values, v), inputs)
+        ctx.last_object_history = None
+        if it % 2 == 0:
+            tol = rng.choice([0.5, 1.0, 1.5])
+            calls = [('zero crossings', lambda x: pc.get_zero_crossings_array_indices(x)),
+                     ('zero crossings/keep', lambda x: pc.get_zero_crossings_array_indices(x, keep_adj_zeros=True)),
+                     ('zero crossings/tol', lambda x: pc.get_zero_crossings_array_indices(x, tol=tol)),
+                     ('zero crossings/keep/tol', lambda x: pc.get_zero_crossings_array_indices(x, keep_adj_zeros=True, tol=tol))]
+            if len(set(v.tolist())) > 1:
+                calls += [('switched peaks', lambda x: pc.get_switched_peak_array_indices(x)),
+                          ('switched peaks/tol', lambda x: pc.get_switched_peak_array_indices(x, tol=tol))]
+            refs = [c(v) for _, c in calls]
+            for lab, c in gen.container_variants(v):
+                ctx.hist('extras2/container/' + lab)
+                for (nm, call), ref in zip(calls, refs):
+                    g = call_impl(call, c)
+                    ctx.oracle('C12 the indices do not depend on the container or dtype holding the series (%s)' % nm, g[0] == 'ok' and _same_idx(g[1], ref),
+                               {'values': v.tolist(), 'container': lab, 'tol': tol}, detail={'got': g[1], 'float64 ndarray': ref})
+
+
+def _x2_scale(ctx, cur):
+    import eqsig
+    from eqsig.fns import peaks_and_crossings as pc
+    rng = ctx.rng
+    quick = ctx.tier == 'quick'
+
+    # ---- (2) exact scale invariance (degree 0; the tolerance scales with the series). 2^-400 keeps the products of neighbouring multiples of
+    # 1/8 inside the normal range, 2^+500 / 2^+900 overflow them to +-inf with the right sign; 2^-600 is the documented underflow limitation
+    for it in range(20 if quick else 200):
+        n = gen.log_int(rng, 3, 200)
+        v = gen.dyadic_record(rng, n) if it % 3 == 0 else _excursion_record(rng, n) if it % 3 == 1 else gen.int_record(rng, n)
+        if len(set(v.tolist())) < 2:
+            continue
+        cur.clear()
+        cur.update({'values': v.tolist()})
+        tol = rng.choice([0.5, 1.0, 1.5])
+        fns = [('zero crossings', lambda x, t: pc.get_zero_crossings_array_indices(x)),
+               ('zero crossings/keep', lambda x, t: pc.get_zero_crossings_array_indices(x, keep_adj_zeros=True)),
+               ('zero crossings/tol', lambda x, t: pc.get_zero_crossings_array_indices(x, tol=t)),
+               ('switched peaks', lambda x, t: pc.get_switched_peak_array_indices(x)),
+               ('switched peaks/tol', lambda x, t: pc.get_switched_peak_array_indices(x, tol=t))]
+        base = [f(v, tol) for _, f in fns]
+        for k in (-400, 500, -200, 900):
+            ctx.hist('extras2/scale/2^%d' % k)
+            ctx.count_case(('x2s', k, v.tobytes()), True)
+            w = v * 2.0 ** k
+            for (nm, f), b in zip(fns, base):
+                with np.errstate(all='ignore'):
+                    g = call_impl(f, w, tol * 2.0 ** k)
+                ctx.oracle('C12 indices are unchanged when series (and tolerance) are scaled by a power of two (%s)' % nm, g[0] == 'ok' and _same_idx(g[1], b),
+                           {'values': v.tolist(), 'tol': tol, 'scale': '2**%d' % k}, detail={'scaled': g[1], 'base': b})
+
+
+def _x2_large(ctx, cur):
+    import eqsig
+    from eqsig.fns import peaks_and_crossings as pc
+    rng = ctx.rng
+    quick = ctx.tier == 'quick'
+
+    # ---- (1) large instances (tens of thousands of samples, thousands of excursions and zero touches): the clauses in O(n) with NumPy
+    sizes = [('zero-touches', rng.choice([20000, 32768, 60000])), ('int-walk', rng.choice([10000, 16384, 50000])), ('noise', rng.choice([8192, 30000]))]
+    if not quick:
+        sizes += [(k, m) for k in ('zero-touches', 'int-walk', 'noise', 'excursions') for m in (4096, 5001, 65536, 100000)]
+    for kind, n in sizes:
+        seed = rng.randrange(2 ** 31)
+        g = np.random.default_rng(seed)
+        if kind in ('zero-touches', 'excursions'):
+            import random as _random
+            v = _excursion_record(_random.Random(seed), n, zero_touch=(kind == 'zero-touches'))
+        elif kind == 'int-walk':
+            v = g.integers(-2, 3, size=n).astype(float)
+        else:
+            v = g.standard_normal(n)
+        desc = {'generator': 'c12.extras2 large', 'kind': kind, 'n': n, 'seed': seed}
+        cur.clear()
+        cur.update(desc)
+        ctx.hist('extras2/large/' + kind)
+        ctx.count_case(('x2l', kind, n, seed), True, sample=desc)
+        z0 = {}
+        for keep in (False, True):
+            r = call_impl(pc.get_zero_crossings_array_indices, v, keep_adj_zeros=keep)
+            want = np_spec_zc(v, keep)
+            ctx.oracle('C12.a (large) zero-crossing indices == {0} + zeros (first of each run unless keep_adj) + first sample after a strict sign change',
+                       r[0] == 'ok' and _same_idx(r[1], want), {**desc, 'keep_adj_zeros': keep},
+                       detail={'len got': len(r[1]) if r[0] == 'ok' else r, 'len want': len(want)})
+            z0[keep] = want
+        P = pc.get_peak_array_indices(v)
+        r = call_impl(pc.get_switched_peak_array_indices, v)
+        bad = np_spec_switched(v, r[1], P) if r[0] == 'ok' else 'returns'
+        ctx.oracle('C12.c-e (large) switched peaks: ' + (bad or 'ascending / one per excursion at its largest |value| / zero-valued turning points / signs / global max'),
+                   bad is None, desc, detail={'count': len(r[1]) if r[0] == 'ok' else r})
+        if r[0] == 'ok':
+            S = np.asarray(r[1])
+            asig = _light_history(ctx, eqsig.AccSignal, v, 0.01)
+            ctx.oracle('C12 (large) object-level wrappers == array-level functions', _same_idx(pc.get_switched_peak_indices(asig), S) and
+                       _same_idx(pc.get_zero_crossings_indices(asig), z0[False]), desc)
+            ctx.last_object_history = None
+            for lab, c in gen.container_variants(v, arrays_only=True):
+                ctx.oracle('C12 (large) indices do not depend on the dtype / memory layout of the series', _same_idx(pc.get_switched_peak_array_indices(c), S)
+                           and _same_idx(pc.get_zero_crossings_array_indices(c), z0[False]), {**desc, 'container': lab})
+            with np.errstate(all='ignore'):
+                for k in ((-400, 500) if kind != 'noise' else (-100, 400)):
+                    w = v * 2.0 ** k
+                    ctx.oracle('C12 (large) indices unchanged when the series is scaled by a power of two', _same_idx(pc.get_switched_peak_array_indices(w), S)
+                               and _same_idx(pc.get_zero_crossings_array_indices(w), z0[False]), {**desc, 'scale': '2**%d' % k})
+
+
+def extras2(ctx):
+    from _hxb_common import guarded_sections
+    guarded_sections(ctx, 'C12', [('wrappers', _x2_wrappers), ('scale', _x2_scale), ('large', _x2_large)])
+
+
+_run_main2 = run
+
+
+def run(ctx):
+    _run_main2(ctx)
+    extras2(ctx)
+    ctx.flush()
